@@ -67,6 +67,135 @@ def fresh(a, b):
 '''
 
 
+CLOSURE_HOST = '''
+class Cancel(BaseException):
+    pass
+
+
+class BadStr:
+    def __str__(self):
+        raise Cancel()
+
+
+class BadStrExc:
+    def __str__(self):
+        raise ValueError('no text')
+
+
+class Obj:
+    def __init__(self, tag):
+        self.tag = tag
+
+    def __str__(self):
+        return 'Obj#' + self.tag
+
+
+def held(first, second, bad, bad2):
+    shared = [first, second]
+    pair = [shared, bad]
+    out = [second, first, shared]
+    return out  # TP:held
+
+
+GB = None
+GB2 = None
+GS = None
+
+
+def held2(first, second):
+    shared = [first, second]
+    return shared  # TP:held2
+'''
+
+
+def table_problems(s, known):
+    """Closure and identity of one snapshot's table. known: name -> real object (the harness made them)."""
+    look = s.var_lookup
+    by_hash = {}
+    for vid, v in look.items():
+        if v.hash in by_hash:
+            return 'ids %s and %s are both for the object with hash %s' % (by_hash[v.hash], vid, v.hash)
+        by_hash[v.hash] = vid
+        for ch in v.children:
+            if ch.vid not in look:
+                return 'child %s of variable %s refers to id %r which is not in the table' % (ch.name, vid, ch.vid)
+    ids = {str(id(o)): n for n, o in known.items()}
+    for fr in s.frames[:1]:
+        for fv in fr.variables:
+            if fv.vid not in look:
+                return 'frame variable %s refers to id %r which is not in the table' % (fv.name, fv.vid)
+            if fv.name in known and look[fv.vid].hash != str(id(known[fv.name])):
+                return 'frame variable %s resolves to the entry of %s (%s %r)' % (
+                    fv.name, ids.get(look[fv.vid].hash, 'another object'), look[fv.vid].type, look[fv.vid].value)
+    for w in s.watches:
+        if w.error is None and (w.result is None or w.result.vid not in look):
+            return 'watch %s refers to id %r which is not in the table' % (w.expression, w.result.vid if w.result else None)
+    for vid, v in look.items():
+        name = ids.get(v.hash)
+        if name is not None and v.type != type(known[name]).__name__:
+            return 'the entry of %s (id %s) has type %s' % (name, vid, v.type)
+    return None
+
+
+def closure_leg(c, wd):
+    """Watches that fail half way through their value (a member whose str() raises, also a BaseException) followed by
+    watches reaching the members collected before the failure; and deferred snapshots whose captured result holds
+    objects of the frame. Every reference resolves, every object has one id, every id one object."""
+    mod, path, marks = R.write_host(wd, CLOSURE_HOST)
+    base = path.rsplit('/', 1)[-1]
+    watch_sets = [['[shared, bad]', 'shared', 'shared[0]'], ['pair', 'shared', '[bad, first]', 'first'],
+                  ["{'a': first, 'b': bad2, 'c': second}", 'second', 'first'], ['[first, bad, second]', '[second]', 'out'],
+                  ['(shared, bad2, bad)', '[shared]', 'pair[0]']]
+    cases = [('watches', {}, ws) for ws in watch_sets]
+    cases += [('line_capture', {'stage': 'line_capture'}, []), ('line_capture+watches', {'stage': 'line_capture'},
+                                                                    ['[out, first]', 'pair'])]
+    cases += [('method_capture', {'stage': 'method_capture', 'method_name': 'held'}, ['shared'])]
+    # the failing member is reachable through the watch only (a module global), not from the frame
+    cases += [('global-watches', {}, ws) for ws in (['[shared, GB]', 'shared', 'first'], ['[first, GB2, GB]', 'first', 'shared'],
+                                                    ["{'a': second, 'b': GB}", '[second]', 'second'],
+                                                    ['[GS, GB]', 'GS', 'GS[0]'], ["{'k': GS, 'b': GB2, 'c': GB}", '[GS]'])]
+    for label, args, ws in cases:
+        first, second = mod.Obj('first'), mod.Obj('second')
+        bad, bad2 = mod.BadStr(), mod.BadStrExc()
+        mod.GB, mod.GB2 = bad, bad2
+        mod.GS = [mod.Obj('g1'), mod.Obj('g2')]
+        known = {'first': first, 'second': second, 'bad': bad, 'bad2': bad2}
+        rg = R.Rig()
+        try:
+            two = label == 'global-watches'
+            rg.install([{'id': 't', 'path': base, 'line': 0 if 'method' in label else marks['held2' if two else 'held'],
+                         'args': args, 'watches': ws}])
+            if two:
+                res = rg.run(mod.held2, first, second, only_file=path)
+            else:
+                res = rg.run(mod.held, first, second, bad, bad2, only_file=path)
+            snaps = rg.snapshots()
+            what = None
+            if res[0] != 'ok' or rg.escaped or len(snaps) != 1:
+                what = 'no snapshot / host changed %r %r (%d snapshots)' % (res, rg.escaped, len(snaps))
+            else:
+                what = table_problems(snaps[0], known)
+                if what is None and 'capture' in label:
+                    caps = [w for w in snaps[0].watches if w.source == 'CAPTURE']
+                    if len(caps) != 1 or caps[0].error is not None or caps[0].result.vid not in snaps[0].var_lookup:
+                        what = 'captured result missing: %s' % [w.__dict__ for w in caps]
+                    else:
+                        v = snaps[0].var_lookup[caps[0].result.vid]
+                        hashes = [snaps[0].var_lookup[ch.vid].hash for ch in v.children]
+                        if hashes[:2] != [str(id(second)), str(id(first))]:
+                            what = 'the captured list [second, first, shared] shows %s' % [
+                                (snaps[0].var_lookup[ch.vid].type, snaps[0].var_lookup[ch.vid].value) for ch in v.children]
+            c.traces_validated += 1
+            c.note_case(key=('closure', label, str(ws)), nontrivial=True)
+            if what:
+                p_ = c.save_replay({'direction': 'C2S', 'kind': 'closure', 'case': label, 'watches': ws, 'what': what})
+                c.violation('%s %s: %s' % (label, ws, what), p_)
+        finally:
+            rg.close()
+    import sys
+    sys.modules.pop(mod.__name__, None)
+
+
 def temporaries_leg(c, wd):
     """Watches that create fresh values of the same shape: each result must be its own value (no id reuse)."""
     mod, path, marks = R.write_host(wd, HOST)
@@ -264,6 +393,7 @@ def run(c):
     traces, meta, sk = c05.run_frame_instances(c, fr, wd, 'shared-across-frames')
     c05.validate(c, traces, meta)
     temporaries_leg(c, wd)
+    closure_leg(c, wd)
 
 
 if __name__ == '__main__':
